@@ -341,9 +341,10 @@ def setCache (st : DSt) (k : Nat) (ys : List Obj) : DSt :=
   { st with h := { st.h with qvars := st.h.qvars.map (fun v =>
       if v.key == iterKey k then { v with cache := some ys.eraseDups } else v) } }
 
-/-- one `next()`; `snap` = the repaired behaviour (every class list copied when the evaluation starts, dead
-instances skipped) -/
-def advance (q : Quirks) (snap : Bool) (S : Schema) (Sfinal : Schema) (st : DSt) (it : Iter) : DSt × Iter :=
+/-- one `next()`; `snap` = every class list copied when the evaluation starts (the behaviour F-C13-3 asks for; the code
+copies the list of a class when the walk reaches it); `skipDead` = an instance that died after the copy was taken is
+skipped (the code as it is, F-C13-4 repaired; before: yielded as `None`, the condition raises) -/
+def advance (q : Quirks) (snap skipDead : Bool) (S : Schema) (Sfinal : Schema) (st : DSt) (it : Iter) : DSt × Iter :=
   if it.status != 0 then (st, it) else
   let (st, it) :=
     if it.started then (st, it)
@@ -364,7 +365,7 @@ def advance (q : Quirks) (snap : Bool) (S : Schema) (Sfinal : Schema) (st : DSt)
         if st.h.isLive o then
           let it := { it with cur := rest, yielded := it.yielded ++ [o] }
           (setCache st it.key it.yielded, it)
-        else if snap then go fuel { it with cur := rest }
+        else if skipDead then go fuel { it with cur := rest }
         else (st, { it with cur := rest, status := 2 })
       | [] =>
         match it.walk with
